@@ -13,17 +13,20 @@
 (*   request addressed, "-" if none), reqhold / reqret / reqdef / grant     *)
 (*   (what the request asked for),                                          *)
 (*   vers: for every tracked version, in a fixed order, new ones appended:  *)
-(*     name, alive (GET by version id / by key returned exactly its bytes), *)
+(*     name, key ("k1" | "k2"), alive (GET by version id / by key returned  *)
+(*     exactly its bytes),                                                  *)
 (*     hold "ON" | "OFF" | "?" (unreadable), ret [mode, until] (mode "?":   *)
 (*     unreadable)                                                          *)
 (* The abstract lock state is carried along: a legal hold changes only by   *)
 (* a successful PutObjectLegalHold on that version, the default retention   *)
 (* only by a successful PutObjectLockConfiguration, the bypass permission   *)
-(* only by a successful PutBucketPolicy; retention follows what the API     *)
+(* (grants "<caller>:<scope>", scope "*" or a key: whether the caller of a  *)
+(* step holds it is evaluated PER KEY of the tracked version) only by a     *)
+(* successful PutBucketPolicy; retention follows what the API     *)
 (* reports (and every reported change must satisfy RetChangeOK).  Nothing   *)
 (* is demanded of reply codes.                                              *)
 (* verdict.ndjson: [n, bad]: bad = the contradicted rules, each             *)
-(*   [line, rule, name, kind, class, has, strictonly]; strictonly = only contradicted   *)
+(*   [line, rule, name, kind, class, has, elsewhere, strictonly]; strictonly = only contradicted   *)
 (*   when the bypass header is required in addition to the permission       *)
 (*   (reported as a note, not as a violation: the property statement speaks *)
 (*   of the permission only).                                               *)
@@ -35,12 +38,14 @@ Trace == ndJsonDeserialize("trace.ndjson")
 SetOf(s) == {s[i] : i \in DOMAIN s}
 Empty == [vers |-> <<>>, def |-> NoRet, perm |-> {}]
 
-FromObs(o) == [name |-> o.name, alive |-> o.alive, hold |-> (o.hold = "ON"),
+FromObs(o) == [name |-> o.name, key |-> o.key, alive |-> o.alive, hold |-> (o.hold = "ON"),
                ret |-> IF o.ret.mode = "?" THEN NoRet ELSE o.ret]
 
 InitState(e) == [vers |-> [i \in DOMAIN e.vers |-> FromObs(e.vers[i])], def |-> e.reqdef, perm |-> SetOf(e.grant)]
 
-Has(s, e) == e.caller \in s.perm
+Has(s, e, k) == HasBypass(s.perm, e.caller, k)
+\* the caller holds the permission on another key but not on k (for fingerprints)
+Elsewhere(s, e, k) == ~Has(s, e, k) /\ \E k2 \in {"k1", "k2"} : Has(s, e, k2)
 NewRet(v, o, e) ==
     IF o.ret.mode # "?" THEN o.ret
     ELSE IF e.op = "PutRetention" /\ e.ok /\ e.target = v.name THEN e.reqret
@@ -53,36 +58,36 @@ NewHold(v, o, e) ==
 \* ProtectedIntact for one tracked version and one observed step
 IntactBad(s, e, i, strict) ==
     LET v == s.vers[i] IN
-    v.alive /\ Protected(v.hold, v.ret, s.def, Has(s, e), e.hdr, e.now, strict) /\ ~e.vers[i].alive
+    v.alive /\ Protected(v.hold, v.ret, s.def, Has(s, e, v.key), e.hdr, e.now, strict) /\ ~e.vers[i].alive
 \* ComplianceMonotone for one tracked version and one observed step
 MonoBad(s, e, i, strict) ==
     LET v == s.vers[i] IN
-    v.alive /\ e.vers[i].alive /\ ~RetChangeOK(v.ret, NewRet(v, e.vers[i], e), Has(s, e), e.hdr, e.now, strict)
+    v.alive /\ e.vers[i].alive /\ ~RetChangeOK(v.ret, NewRet(v, e.vers[i], e), Has(s, e, v.key), e.hdr, e.now, strict)
 
 Findings(s, e, ln) ==
     LET n == IF Len(s.vers) <= Len(e.vers) THEN Len(s.vers) ELSE Len(e.vers) IN
     {[line |-> ln, rule |-> "intact", name |-> s.vers[i].name,
-      kind |-> Kind(s.vers[i].hold, s.vers[i].ret, s.def, Has(s, e), e.hdr, e.now, ~IntactBad(s, e, i, FALSE)),
+      kind |-> Kind(s.vers[i].hold, s.vers[i].ret, s.def, Has(s, e, s.vers[i].key), e.hdr, e.now, ~IntactBad(s, e, i, FALSE)),
       class |-> Class(s.vers[i].hold, s.vers[i].ret, s.def, e.now),
-      has |-> Has(s, e), strictonly |-> ~IntactBad(s, e, i, FALSE)] : i \in {j \in 1 .. n : IntactBad(s, e, j, TRUE)}}
+      has |-> Has(s, e, s.vers[i].key), elsewhere |-> Elsewhere(s, e, s.vers[i].key), strictonly |-> ~IntactBad(s, e, i, FALSE)] : i \in {j \in 1 .. n : IntactBad(s, e, j, TRUE)}}
     \cup
     {[line |-> ln, rule |-> "monotone", name |-> s.vers[i].name,
       kind |-> s.vers[i].ret.mode \o "-" \o Change(s.vers[i].ret, NewRet(s.vers[i], e.vers[i], e), e.now),
       class |-> IF s.vers[i].ret.mode = "COMPLIANCE" THEN "absolute" ELSE "governance",
-      has |-> Has(s, e), strictonly |-> ~MonoBad(s, e, i, FALSE)] : i \in {j \in 1 .. n : MonoBad(s, e, j, TRUE)}}
+      has |-> Has(s, e, s.vers[i].key), elsewhere |-> Elsewhere(s, e, s.vers[i].key), strictonly |-> ~MonoBad(s, e, i, FALSE)] : i \in {j \in 1 .. n : MonoBad(s, e, j, TRUE)}}
     \cup
     \* not demanded by the statement (reported as a note): the bucket default retention
     \* is weakened by a new lock configuration
-    (IF e.op = "PutLockConfig" /\ e.ok /\ ~RetChangeOK(s.def, e.reqdef, Has(s, e), e.hdr, e.now, FALSE)
+    (IF e.op = "PutLockConfig" /\ e.ok /\ ~RetChangeOK(s.def, e.reqdef, Has(s, e, "*"), e.hdr, e.now, FALSE)
      THEN {[line |-> ln, rule |-> "default", name |-> "-", kind |-> s.def.mode \o "-" \o Change(s.def, e.reqdef, e.now),
             class |-> IF s.def.mode = "COMPLIANCE" THEN "absolute" ELSE "governance",
-            has |-> Has(s, e), strictonly |-> FALSE]}
+            has |-> Has(s, e, "*"), elsewhere |-> FALSE, strictonly |-> FALSE]}
      ELSE {})
 
 Update(s, e) ==
     [vers |-> [i \in DOMAIN e.vers |->
                  IF i <= Len(s.vers)
-                 THEN [name |-> s.vers[i].name, alive |-> s.vers[i].alive /\ e.vers[i].alive,
+                 THEN [name |-> s.vers[i].name, key |-> s.vers[i].key, alive |-> s.vers[i].alive /\ e.vers[i].alive,
                        hold |-> NewHold(s.vers[i], e.vers[i], e), ret |-> NewRet(s.vers[i], e.vers[i], e)]
                  ELSE FromObs(e.vers[i])],
      def |-> IF e.op = "PutLockConfig" /\ e.ok THEN e.reqdef ELSE s.def,
